@@ -34,3 +34,4 @@ void verif_fail_alloc_at(uint64_t k) { ir2c_alloc_count = 0; ir2c_fail_alloc_at 
 uint64_t verif_alloc_count(void) { return ir2c_alloc_count; }
 uint64_t verif_live_allocs(void) { return ir2c_live_allocs; }
 uint64_t verif_live_bytes(void) { return ir2c_live_bytes; }
+uint64_t verif_mutex_held(void) { return ir2c_mutex_held; }
